@@ -125,6 +125,17 @@ def near_misses(v, rng):
     return out
 
 
+def _floats(v):
+    if isinstance(v, float):
+        yield v
+    elif isinstance(v, dict):
+        for x in v.values():
+            yield from _floats(x)
+    elif isinstance(v, (list, tuple)):
+        for x in v:
+            yield from _floats(x)
+
+
 def run_case(case, ctx):
     import signac
     from signac.job import calc_id
@@ -156,6 +167,14 @@ def run_case(case, ctx):
     # model's canonical text against CPython's own json.dumps (validates the modelled encoder)
     model.append("text " + enc_val(v))
     impl.append(hx(json.dumps(v, sort_keys=True)))
+    # hypothesis of the injectivity theorems (C01.equal_ids_collision_or_equal_checked), evaluated by
+    # the Lean driver on this value: every float repr on the wire is a float token ...
+    model.append("ftok " + enc_val(v))
+    impl.append("ok")
+    # ... and the repr determines the value (fv = float)
+    for x in _floats(v):
+        if not (x != x or float(repr(x)) == x):
+            oracle.append("float %r is not determined by its repr" % (x,))
 
     # different JSON values => different ids
     for w in near_misses(v, prng):
